@@ -272,7 +272,7 @@ macro_rules! impl_build {
   ($name:ident, $mono:ident, $ctx:ty, $bx:ty,
    $merge:ident, $zip:ident, $combine:ident, $wlf:ident, $take_until:ident,
    $skip_until:ident, $sample:ident, $delay:ident, $delay_at:ident, $observe_on:ident,
-   $finalize:ident) => {
+   $finalize:ident, $flat_map:ident, $concat_map:ident, $merge_all:ident) => {
     pub fn $name(e: &SExp, ctx: &$ctx) -> $bx {
       let xs = e.list();
       let head = xs[0].atom();
@@ -416,6 +416,21 @@ macro_rules! impl_build {
         "withlatest" => {
           $name(&xs[1], ctx).$wlf($name(&xs[2], ctx)).map(|(a, b)| pair(a, b)).box_it()
         }
+        // every item of the source starts a clone of the INNER pipeline (flat_map / concat_map / map + merge_all n);
+        // no chain model: implementation + oracle only (C16: a producer inside an inner observable retires)
+        "flatmap" => {
+          // (MergeAllOp is not Clone: a deferred build per subscription keeps the node clonable)
+          let (inner, src) = ($name(&xs[1], ctx), $name(&xs[2], ctx));
+          observable::defer(move || src.$flat_map(move |_| inner.clone())).box_it()
+        }
+        "concatmap" => {
+          let (inner, src) = ($name(&xs[1], ctx), $name(&xs[2], ctx));
+          observable::defer(move || src.$concat_map(move |_| inner.clone())).box_it()
+        }
+        "mergemap" => {
+          let (inner, src, n) = ($name(&xs[2], ctx), $name(&xs[3], ctx), xs[1].nat());
+          observable::defer(move || src.map(move |_| inner.clone()).$merge_all(n)).box_it()
+        }
         "takeuntil" => $name(&xs[1], ctx).$take_until($name(&xs[2], ctx)).box_it(),
         "skipuntil" => $name(&xs[1], ctx).$skip_until($name(&xs[2], ctx)).box_it(),
         "sample" => $name(&xs[1], ctx).$sample($name(&xs[2], ctx)).box_it(),
@@ -494,7 +509,7 @@ macro_rules! impl_build {
 
 impl_build!(
   build_local, mono_local, LCtx, LBox, merge, zip, combine_latest, with_latest_from, take_until, skip_until,
-  sample, delay, delay_at, observe_on, finalize
+  sample, delay, delay_at, observe_on, finalize, flat_map, concat_map, merge_all
 );
 impl_build!(
   build_threads,
@@ -511,5 +526,8 @@ impl_build!(
   delay_threads,
   delay_at_threads,
   observe_on_threads,
-  finalize_threads
+  finalize_threads,
+  flat_map_threads,
+  concat_map_threads,
+  merge_all_threads
 );
